@@ -9,7 +9,7 @@ from lib import roundtrip as R
 from props import c06
 
 PID = "C07"
-EXTRA_PROPS = ("Num",)
+EXTRA_PROPS = ("Num", "C06b")
 RULE = ("case 'frame' = (format, generated matrix as in C06 but with factors/offsets of up to 12 significant digits incl. exponent "
         "forms, value tables, units (also longer than 16 characters for SYM), multiplexing with selector value 0, several senders and "
         "receivers, float signals with either sign flag; in three matrices out of ten signals about which there is nothing to say - factor 1, "
